@@ -70,6 +70,7 @@ void vh_note(const char *fmt, ...);            /* {"type":"note","text":...} */
  * fn must call vh_case_begin() first.  Returns number of crashes. */
 typedef void (*vh_case_fn)(uint64_t idx);
 int vh_run(vh_case_fn fn);
+extern void (*vh_child_exit_hook)(void);   /* called in the child after its last case */
 void vh_case_begin(uint64_t idx, const char *crash_key, const char *desc_json);
 void vh_set_crash_key(const char *crash_key);
 void vh_call_begin(const char *name);
